@@ -1,6 +1,7 @@
 from .common import frame_unit, DISPLAY_FILES
 LEVEL = "other"
 EXPLANATION = ("BOUNDED (native): 313 circuits (quick) - the Circuit.add histories of C02 (every ancilla configuration), all component kinds with labelled / unlabelled parameters, loss, barriers, plain, heralded and nested groups, qubit gates, single mode, empty, heralds only - x both back-ends x display_loss x show_parameter_values x default / custom labels (7759 calls): a drawing is produced without raising and the circuit is unchanged; label lists of the wrong length (incl. empty) and an unknown display type give DisplayError and change nothing. PROVED (frame pass): the display modules never write module- or class-level mutable state. NOT under contract: the drawing classes' position arithmetic (bounded only). ADDED LATER (bounded): degenerate but constructible components (barrier over no modes, empty swaps, empty group, 1x1 unitary), mode numbers given as numpy integers / whole floats / float32, one label list reused for all calls (must not be changed).")
+EXPLANATION = EXPLANATION + ' ADDED IN ROUNDS 5-8. BOUNDED: unknown display types of every kind (non-strings too) through Display and Circuit.display, component values given as numpy scalars / ints / Fractions (directly and through Parameters), group names of every shape, mode labels that are not strings.'
 ASSUMPTIONS = ["A4: drawsvg / matplotlib calls are total", "bounded: the constructed family of circuits (add-histories of C02, all component kinds, nested and heralded groups, qubit gates)"]
 TRUSTED = ["snapshot comparison of (n_modes, input_modes, heralds, internal modes, spec repr, U_full bytes)"]
 NSHARDS = 14
